@@ -307,7 +307,7 @@ def domain(op, param, tier):
     if param == "value":
         if op in ("incr", "decr"):
             return [1, 2 ** 64]
-        return [b"v", 0, "unique"] if tier == "quick" else [b"v", b"", 0, "s", "unique"]
+        return [b"v", 0, None, "unique"] if tier == "quick" else [b"v", b"", 0, None, "s", "unique"]
     if param == "cas":
         return [b"17", 17]
     if param == "expire":
